@@ -360,7 +360,9 @@ impl<C: Suite> Model for M11<C> {
 }
 
 pub fn models(tier: Tier, seed: u64) -> Vec<Box<dyn DynModel>> {
-    vec![bounded(M11::<Bls12381G1Impl>::new(tier, seed), 2), bounded(M11::<Bls12381G2Impl>::new(tier, seed), 2)]
+    let mut v: Vec<Box<dyn DynModel>> = vec![bounded(M11::<Bls12381G1Impl>::new(tier, seed), 2), bounded(M11::<Bls12381G2Impl>::new(tier, seed), 2)];
+    v.extend(crate::props::tsurf::models("C11", tier, seed));
+    v
 }
 
 pub fn describe(tier: Tier, r: &mut Report) {
